@@ -14,7 +14,7 @@ def _child(job):
         pkg = Package(res["files"])
         mi = next(m for m in pkg.client_methods() if m.name == job["method"])
         ci = pkg.resolve("client", mi.model)
-        return {"validate": rt.validate(ci.module, ci.name, job["payload"]), "query": mi.query, "opname": mi.operation_name}
+        return {"validate": rt.validate(ci.module, ci.name, job["payload"]) if job.get("payload") is not None else {}, "query": mi.query, "opname": mi.operation_name}
     finally:
         rt.close()
 
@@ -25,6 +25,17 @@ def replay(data) -> bool:
     r = gen.pmap(_child, [job])[0]
     print("real pydantic:", r)
     q = data.get("q")
+    if q == "package":
+        return "validate" in r or "gen_failed" not in r
+    if q == "image":
+        print("declared annotation of a configured custom scalar contains Any (see 'what' in the replay file); regenerate and inspect the emitted class")
+        return False
+    if q == "sent_document":
+        from graphql import build_schema, parse, specified_rules, validate
+
+        errs = validate(build_schema(data["schema"]), parse(r.get("query") or ""), specified_rules)
+        print("sent document validation errors:", [e.message for e in errs][:3])
+        return not errs
     v = r.get("validate", {})
     if q == "accept":
         return bool(v.get("accepted"))
